@@ -32,8 +32,17 @@ def want(p):
     return p["solves"][0]["heur"] != "none"
 
 
+def fallback(p):
+    """every fourth program names the MOSEK wrapper although MOSEK is not installed: solve() falls back to cvxpy and must
+    carry all options over"""
+    fallback.n = getattr(fallback, "n", 0) + 1
+    if fallback.n % 4 == 0:
+        return dict(prog=p["prog"], solves=[dict(o, wrapper="mosek") for o in p["solves"]])
+    return p
+
+
 def run(tier):
-    return sc.run_family(PID, tier, RULE, select, want=want, cap=dict(quick=300, thorough=3000))
+    return sc.run_family(PID, tier, RULE, select, want=want, cap=dict(quick=300, thorough=3000), transform=fallback)
 
 
 def replay(path):
